@@ -14,6 +14,10 @@ the real sampler enumerates its whole (cell, u) space.
              scales from the origin, thorough +-1e6) x bounds x conditioning points x grid sizes: shape, grid inside the bounds, coverage of
              the part above 1e-3 of the peak, table proportional to the true conditional through the
              point, normalisation against exact quadrature.
+* narrow   – get_conditionals on conditionals very narrow relative to the bounds (width 1e-2 .. 1e-6 of the bounds) with the conditioning coordinate in the
+             high-density region and anywhere in the bounds (fractions, next to / on an edge, a few widths from a search node) x the same families, scales
+             and locations; the clauses of cond (keys narrow/...), which include  <pre>/grid-does-not-resolve-the-high-density-region  (fewer than 1/8 of the
+             nodes where the conditional exceeds 1e-3 of its peak) and a normalisation tolerance capped at 1e-2.
 * csample  – conditional_sample with the scripted generator: every cell x u of every parameter's
              table lies inside the bounds and follows the interpolant of the get_conditionals table.
 """
@@ -301,7 +305,7 @@ def check_conditional(i, xg, yg, lo, hi, f, m, w, grid_size, fails, slack, detai
     if inside * RESOLVE_SHARE < grid_size:
         fails.append(
             fail(f"{pre}/grid-does-not-resolve-the-high-density-region", f"variable {i}: only {inside} of the {grid_size} nodes of the grid [{float(xg[0])!r},{float(xg[-1])!r}] "
-                 f"(spacing {float(xg[1] - xg[0]):.3g}) lie where the conditional exceeds 1e-3 of its peak (peak at {peak_x!r}, width {w:.3g})", **details)
+                 f"(spacing {float(xg[1] - xg[0]):.3g}) lie where the conditional exceeds 1e-3 of its peak (peak at {float(peak_x)!r}, width {w:.3g})", **details)
         )
     # --- normalisation against exact quadrature
     zg = integrate(f, fpk, xg[0], xg[-1], m, w)
@@ -392,7 +396,7 @@ def ev_csample(case):
 # ----------------------------------------------------------------------------- narrow conditionals
 # conditionals very narrow relative to the bounds: width of the conditional = REL x width of the bounds, the conditioning coordinate in the
 # high-density region (the only way such a conditional is in the quantifier: the 16-point search cannot meet it), anywhere in the bounds
-NARROW_RELS = [1e-2, 1e-3, 1e-4]
+NARROW_RELS = [1e-2, 1e-3, 1e-4, 1e-5, 1e-6, 1e-7, 1e-8]
 # position of the conditioning coordinate in the bounds: ("frac", t) at the fraction t of the bounds; ("node", k, q) q conditional widths from the
 # k-th of the 16 evenly spaced nodes (k = 0 / 15: the edges of the bounds; q = 0: exactly on the node / edge)
 NARROW_POS = [("frac", 0.4321), ("node", 0, 1.0), ("node", 15, -1.0), ("frac", 0.03), ("frac", 0.97), ("node", 0, 6.0), ("node", 15, -6.0), ("node", 5, 6.0),
@@ -547,6 +551,26 @@ def run(ck):
                         for W in Wl:
                             scases.append({"family": famn, "s": s, "loc": loc, "bounds": bk, "cp": cp, "W": W})
     ck.run_cases("csample", scases, chunk=1)
+    # ---- narrow conditionals: width = rel x width of the bounds, conditioning coordinate in the high-density region, anywhere in the bounds
+    ncases = []
+    nlocs = LOCS + ([LOCS_MORE[seed % 2]] if quick else LOCS_MORE)
+    cps = ["mode", "off+", "off-"]
+    k = 0
+    for loc in nlocs:
+        for famn in FAMS:
+            for s in SCALES + far:
+                k += 1
+                for pi, pos in enumerate(NARROW_POS):
+                    if quick:
+                        # Latin slice: half of the positions per (location, family, scale), one width and one conditioning point per position, rotating
+                        if (pi + k + seed) % 2:
+                            continue
+                        sel = [(NARROW_RELS[(k + pi // 2 + seed) % len(NARROW_RELS)], cps[(k + pi + seed) % 3])]
+                    else:
+                        sel = [(rel, cp) for rel in NARROW_RELS for cp in cps]
+                    for j, (rel, cp) in enumerate(sel):
+                        ncases.append({"family": famn, "s": s, "loc": loc, "rel": rel, "pos": list(pos), "cp": cp, "grid_size": gss[(seed + k + pi + j) % 3]})
+    ck.run_cases("narrow", ncases)
     ck.rule = (
         "pls: every ascending grid of 2..5 (thorough: 2..6) nodes with spacings in {.5,1,2,7} (uniform and non-uniform; quick: half of the 5-node grids by seed parity; origin in {0,-3.25,1000}, "
         "rotated by seed in the quick tier) x every table over {0,1,3,10} not all zero (plus nearly flat tables straddling |dh|=1e-5 and tables rescaled by 1e-6/1e6); "
@@ -555,7 +579,12 @@ def run(ck):
         "{0, +1e3, -1e3} scales from the origin (thorough: also +-1e6) x bounds {wide, clip-hi, clip-lo, clip-past-mode, "
         "cp-on-node} x conditioning point {mode, off+, off-, far (5 marginal widths off, half-width 12 only)} x bound half-width {12,400} conditional widths x grid_size {64,128,33}. "
         "A case is distinct by (nodes, uniform?, zero-mass cell, zero end value, flat, nearly flat) or by (family, scale, location, bounds, cp, grid touching a bound, met by the 16-point search). Failures outside the original lattice (scale within 1e+-3, location 0) carry their own key "
-        "component (tiny-scale / huge-scale / far-location)."
+        "component (tiny-scale / huge-scale / far-location). "
+        "narrow: the same three families x scales x locations {0, +-1e3, +-1e6 (quick: one sign, by seed)} x width of the conditional / width of the bounds {1e-2,1e-3,1e-4,1e-5,1e-6} x position of the "
+        "conditioning coordinate in the bounds {fractions .4321, .03, .97; 1, 6, 30 conditional widths inside either edge; exactly on either edge; 6 widths above search node 5, 30 below and 1 above node 10} "
+        "x conditioning point {mode, off+, off-} x grid_size rotating over {64,128,33}; all clauses as for cond, keys narrow[/tiny-scale][/huge-scale][/far-location]/<clause>; quick: a Latin slice (half of the "
+        "positions per (location, family, scale), width and conditioning point rotating with position, scale and seed), thorough: the whole product. A narrow case is distinct by (family, scale, location, "
+        "relative width, position, cp, whether a search node lies inside the peak / on the coordinate / nowhere near, mode inside the bounds)."
     )
     ck.assume("piecewise_linear_sample draws its cells with rng.choice(p=...) and its within-cell uniforms with rng.random/uniform of the module-level generator (one call each per invocation)")
     ck.assume("tables and grids are the listed finite alphabets; u alphabet {0,.01,.25,.5,.75,.99}")
@@ -563,4 +592,11 @@ def run(ck):
     ck.assume("'any scales': every length of the posterior (widths, centre, bounds, conditioning point) is multiplied by s in {1e-9..1e9} (thorough 1e-12..1e12) and the whole distribution is "
               "shifted by loc*s with |loc| <= 1e3 (thorough 1e6), i.e. the centre is at most 1e6 widths from the origin, where a double still resolves 1e-10 of a width; all oracles are relative to the "
               "width of the conditional, none has an absolute length tolerance")
+    ck.assume("narrow conditionals (evaluator 'narrow'): the quantifier admits a conditional that the 16-point search cannot meet only when it contains the conditioning coordinate in its "
+              "high-density region; the narrow lattice therefore has no 'far' conditioning point: the coordinate is always within 2 log-units of the peak of its conditional (at the mode of the "
+              "posterior or 0.6 marginal widths off it), while the bounds are 1e2 .. 1e8 conditional widths wide and placed so that the coordinate is anywhere in them, next to or exactly on an edge "
+              "(the peak may then lie outside the bounds: the conditional is monotone inside) or a few widths from one of the 16 search nodes. (Widths of 1e-7 and 1e-8 of the bounds are in the lattice "
+              "since the threshold search no longer stops after 20 halvings - recorded defect F31, fixed.)")
+    ck.assume("'matches the true conditional' is taken to include that the returned table resolves it: at least 1/8 of the grid nodes lie where the conditional exceeds 1e-3 of its peak "
+              "(grid-does-not-resolve-the-high-density-region), and the normalisation error admitted for the grid's own quadrature error is capped at 1e-2")
     ck.assume("'normalised' accepts normalisation over the grid range or over the bounds, to within 4x the larger of the Simpson/trapezium quadrature errors on the returned grid")
